@@ -148,6 +148,73 @@ def jobs_c11(tier, known):
     return js
 
 
+A_GCOP = 1 << 15
+A_PERM = 1 << 17
+
+
+def jobs_c04(tier, known):
+    js = []
+    dl = 300 if tier == "quick" else 3000
+    marks = 2 if tier == "quick" else 3
+    for kernel in ("poly", "tet", "hex"):
+        for seed in SEEDS[kernel]:
+            cls = seed_class(seed)
+            for mode in MODES:
+                busets = [ALLBU, "v0e0f0"] if tier == "quick" else BUSETS
+                for bu in busets:
+                    m = marks if cls != "large" else marks - 1
+                    if tier == "quick" and cls == "large" and (bu != ALLBU or mode in ("d1f0", "d0f1")):
+                        continue
+                    caps = "8,16,12,4,%d,4,8" % m
+                    if tier == "thorough" and cls == "small":
+                        js.append(mesh_job("C04", kernel, seed, cfgstr(mode, bu, 1), A_DEL | A_ADDV | A_ADDE, 1, A_GCOP, 2, caps=caps, bcfg="fast", deadline=dl, known=known))
+                    else:
+                        js.append(mesh_job("C04", kernel, seed, cfgstr(mode, bu, 1), A_GCOP, 1, caps=caps, bcfg="fast", deadline=dl, known=known))
+            js.append(mesh_job("C04", kernel, seed, cfgstr("d1f1", ALLBU, 1), A_GCOP, 1, caps="8,16,12,4,1,4,8", bcfg="asan", deadline=dl, known=known))
+    return js
+
+
+def jobs_c13(tier, known):
+    plan = {"quick": {"small": (A_FULL, 2, 0, 0), "medium": (A_FULL, 1, A_R2, 2), "large": (A_R2, 1, 0, 0)},
+            "thorough": {"small": (A_FULL, 2, A_R2, 3), "medium": (A_FULL, 2, 0, 0), "large": (A_FULL, 1, 0, 0)}}
+    asan = {"quick": {"small": (A_FULL, 1, 0, 0), "medium": (A_R2, 1, 0, 0), "large": None},
+            "thorough": {"small": (A_FULL, 2, 0, 0), "medium": (A_FULL, 1, 0, 0), "large": (A_R2, 1, 0, 0)}}
+    js = tiered("C13", tier, known, plan, props=1, asan_plan=asan)
+    js += tiered("C13", tier, known, {"quick": {"small": (A_R2, 1, 0, 0), "medium": (A_R2, 1, 0, 0), "large": None},
+                                      "thorough": {"small": (A_FULL, 1, 0, 0), "medium": (A_R2, 1, 0, 0), "large": (A_R2, 1, 0, 0)}},
+                 props=1, busets=["v0e0f0", "v1e0f1"], modes=["d1f1", "d0f0"])
+    return js
+
+
+A_COLLAPSE = 1 << 16
+
+
+def jobs_c15(tier, known):
+    full = A_FULL | A_ADDCV | A_COLLAPSE
+    r2 = A_R2 | A_ADDCV | A_COLLAPSE
+    plan = {"quick": {"small": (full, 2, 0, 0), "medium": (full, 1, r2, 2), "large": (full, 1, 0, 0)},
+            "thorough": {"small": (full, 2, r2, 3), "medium": (full, 2, r2, 3), "large": (full, 1, r2, 2)}}
+    asan = {"quick": {"small": (full, 1, 0, 0), "medium": (full, 1, 0, 0), "large": (r2, 1, 0, 0)},
+            "thorough": {"small": (full, 2, 0, 0), "medium": (full, 1, r2, 2), "large": (full, 1, 0, 0)}}
+    return tiered("C15", tier, known, plan, kernels=("tet",), asan_plan=asan)
+
+
+def jobs_c16(tier, known):
+    full = A_FULL | A_ADDCV
+    r2 = A_R2 | A_ADDCV
+    plan = {"quick": {"small": (full, 2, 0, 0), "medium": (full, 1, r2, 2), "large": (r2, 2, 0, 0)},
+            "thorough": {"small": (full, 3, 0, 0), "medium": (full, 2, r2, 3), "large": (full, 1, r2, 3)}}
+    asan = {"quick": {"small": (full, 1, 0, 0), "medium": (full, 1, 0, 0), "large": (r2, 1, 0, 0)},
+            "thorough": {"small": (full, 2, 0, 0), "medium": (full, 1, r2, 2), "large": (r2, 2, 0, 0)}}
+    js = tiered("C16", tier, known, plan, kernels=("hex",), asan_plan=asan)
+    # all permutations of a valid halfface list / all tuples through the topology-checked add_cell (C11 probe alphabet on the hex kernel)
+    dl = 300 if tier == "quick" else 3000
+    for seed in ("S14", "S15"):
+        for mode in ("d1f1", "d0f0"):
+            js.append(mesh_job("C16", "hex", seed, cfgstr(mode), A_DEL, 1, A_ADDCV | A_PERM, 2, caps="8,16,12,5,0,6,%d" % (6 if tier == "quick" else 7), bcfg="fast", deadline=dl, known=known))
+    return js
+
+
 def jobs_c12(tier, known):
     plan = {"quick": {"small": (A_FULL, 2, 0, 0), "medium": (A_FULL, 1, 0, 0), "large": (A_R2, 1, 0, 0)},
             "thorough": {"small": (A_FULL, 2, A_R2, 3), "medium": (A_FULL, 1, A_R2, 2), "large": (A_FULL, 1, 0, 0)}}
@@ -183,6 +250,46 @@ def io_jobs(prop, nparts_q, nparts_t):
     return f
 
 
+def jobs_c14(tier, known):
+    js = []
+    dl = 420 if tier == "quick" else 3000
+    confs = [(3, 3, 16), (4, 2, 64)] if tier == "quick" else [(5, 2, 128), (4, 3, 64)]
+    for depth, names, nparts in confs:
+        for i in range(nparts):
+            base = []
+            args = ["--depth", str(depth), "--names", str(names), "--part", "%d/%d" % (i, nparts), "--deadline", str(dl)]
+            if known:
+                args += ["--known", ",".join(known)]
+            js.append({"id": "C14-regmc-d%dn%d-part%dof%d" % (depth, names, i, nparts), "cfg": "asan", "bin": "regmc", "args": args, "replay_args": base, "timeout": dl + 120})
+    return js
+
+
+def jobs_c19(tier, known):
+    js = []
+    for cfg in ("fast", "asan"):
+        for sc in range(5):
+            if cfg == "asan" and tier == "quick" and sc in (2, 3):
+                parts = [0, 1, 2]      # the sanitizer pass skips the large floating-point alphabets in the quick tier
+            elif sc < 2:
+                parts = [0, 1, 2]
+            elif sc < 4:
+                parts = [0, 1, 2, 3, 4, 5]
+            else:
+                parts = [0]
+            for pt in parts:
+                args = ["--tier", tier, "--part", "%d.%d" % (sc, pt)]
+                if known:
+                    args += ["--known", ",".join(known)]
+                js.append({"id": "C19-vecmc-%s-%s-%d.%d" % (tier, cfg, sc, pt), "cfg": cfg, "bin": "vecmc", "args": args, "replay_args": [], "timeout": 3000})
+    return js
+
+
+def jobs_c08(tier, known):
+    js = tiered("C08", tier, known, STATE_PLAN, asan_plan=ASAN_PLAN)
+    js.append({"id": "C08-handlemc-2^30", "cfg": "fast", "bin": "handlemc", "args": [], "replay_args": [], "timeout": 1200})
+    return js
+
+
 E1_ASSUME = ["states are operation histories replayed on fresh objects; deduplicated on a key of all concrete fields",
              "size caps: <= 8 vertices, 16 edges, 12 faces, 4 cells for additions (seeds may be larger)",
              "no halfface is ever used by two live cells (excluded by the property); arguments are always valid handles"]
@@ -201,6 +308,12 @@ PROPS = {
     "C02": mc(jobs_c02, "deletion alphabet (adds, deletes, gc, clear, mode switches) depth 3 (small), 1+3 (medium), 1+2 (large) x 4 modes; 7 partial incidence subsets depth 2 / 1+2",
               "depth 4 (small), 2+4 (medium), 1+3 (large); incidence subsets depth 3 / 1+3 / 1+2"),
     "C03": mc(jobs_c03, B_STATE_Q + "; 5 typed properties (int private, bool shared, double persistent, string private-named, Vec3d shared) on all 6 entity kinds + mesh property + one property created mid-history",
+              B_STATE_T),
+    "C04": mc(jobs_c04, "every seed x 3 kernels x 4 deletion modes x {all incidences, none}: every set of <= 2 marked entities (any kinds) x 6 collection entry points (collect_garbage, leaving deferred mode, StatusAttrib::garbage_collection with/without manifoldness, with/without every handle tracked)",
+              "<= 3 marks, all 8 incidence subsets, also from every state one deletion/addition away (small seeds)",
+              extra=["tracking: all handles of all four trackable kinds (plus one invalid handle each) are handed in at once; each handle is remapped independently by the code, so this covers every subset",
+                     "differential twin: the same entities deleted immediately on a copy of the state with deferred deletion switched off"]),
+    "C13": mc(jobs_c13, B_STATE_Q + "; per state: copy-construct, assign to fresh / non-empty target with held handles, chain, self-assignment, assignment into all three kernel types, then 21 mutations of the copy and 21 of the source with the other side's full state compared after each",
               B_STATE_T),
     "C05": mc(jobs_state("C05"), B_STATE_Q + "; every centre x 26 circulators x laps 1..3 x every step count", B_STATE_T),
     "C06": {"jobs": io_jobs("C06", 16, 16), "level": "exploration", "engine": "ovmio",
@@ -223,7 +336,8 @@ PROPS = {
             "technique": "exhaustive fault enumeration (truncation points, header bytes, chunk permutations, stream fault positions) with an independent format oracle",
             "assumptions": ["mutations the format documents leave open (compression != 0, file_version, flags, empty chunks ...) are only audited for memory safety and validity"],
             "bounds": {"quick": "14 files", "thorough": "14 files (same operators; larger value set is in C07)"}},
-    "C08": mc(jobs_state("C08"), B_STATE_Q, B_STATE_T),
+    "C08": mc(jobs_c08, "(a) ALL 2^30 handle indices for the conversions, static and member forms; (b) " + B_STATE_Q + ": every live edge and face of every reachable state",
+              "(a) all 2^30 indices; (b) " + B_STATE_T),
     "C09": mc(jobs_state("C09"), B_STATE_Q, B_STATE_T),
     "C10": mc(jobs_state("C10"), B_STATE_Q + "; all ordered vertex pairs/triples(/4-tuples), all halfedge pairs, all (cell, ...) combinations per state", B_STATE_T),
     "C11": mc(jobs_c11, "probe alphabet on every seed x 3 kernels x {deferred+fast, immediate} x vertex incidences {on, off}: add_edge over all ordered vertex pairs, add_face(list, check) over ALL halfedge tuples of length 0..3 (hex: 0..4) and add_cell(list, check) over ALL halfface tuples of length 0..4 (hex: 0..3) from a pool of 8 live handles; plus valid-argument construction histories depth 2 / 1",
@@ -234,12 +348,36 @@ PROPS = {
               "depth 2+3 (small), 1+2 (medium), 1 (large) on all 32 configs; deep 2+3 / 1+2 on 8 configs", extra=[
                   "differential oracle: a twin mesh with all incidences permanently enabled executes the same history (handle for handle) minus the toggles",
                   "add_face(vertices) over parallel live edges is left out (which parallel edge is reused is unspecified and configuration-dependent)"]),
+    "C14": {"jobs": jobs_c14, "level": "model_checking", "engine": "regmc",
+            "assumptions": ["two meshes (TopologyKernel), 6 handle slots = 2 per (int,Vertex), (string,Vertex), (int,HalfEdge); names {'', a[, b]}",
+                            "reference model of the registry (DESIGN.md section 12); states deduplicated on the model state (sound while implementation == model, which is checked at every step)",
+                            "ASan + UBSan are the lifetime oracle; every state is also torn down in two destruction orders"],
+            "bounds": {"quick": "all histories of depth 4 (2 names) and depth 3 (3 names) over ~75-150 operations (request/create_*/get/set_shared/set_persistent/set_name/handle copy,move,drop/clear_*/clear/add_vertex/add_edge/mesh copy,assign,self-assign,destroy,switch)",
+                       "thorough": "depth 5 with 2 names, depth 4 with 3 names"},
+            "technique": "explicit-state model checking of the implementation against a reference model (BFS over operation histories)"},
+    "C15": mc(jobs_c15, "tetrahedral kernel, all tet seeds x 4 deletion modes: full alphabet + add_cell(4 vertices) over every 4-subset in both orientations + collapse_edge over every halfedge satisfying the link condition; depth 2 (small), 1+2 (medium), 1 (large). Per state: every cell x halfface x halfedge/vertex for the vertex-order contracts, every TetTopology constructor, all 24+12+4 labels",
+              "depth 2+3 (small/medium), 1+2 (large)",
+              extra=["cells that are closed surfaces but not tetrahedra (e.g. two pillow pairs) are outside the property's quantifier and are not generated",
+                     "collapse_edge is compared in vertex-label space (it swaps halfedge/halfface/cell property slots between old and rebuilt entities); collapsible = link condition on the simplicial complex, clean complexes only"]),
+    "C16": mc(jobs_c16, "hexahedral kernel, S0-S2, S14-S16 x 4 deletion modes: full alphabet + add_cell(8 vertices) over every free closed hex surface in all 24 cube rotations; depth 2 / 1+2; plus ALL 720 permutations (and all 6-tuples from a pool of 6-7 halffaces) through the topology-checked add_cell after deleting a cell",
+              "depth 3 / 2+3, pool of 7 halffaces",
+              extra=["cells that are closed surfaces of 6 quads but not hexahedra are outside the property's quantifier and are not generated"]),
+    "C19": {"jobs": jobs_c19, "level": "exploration", "engine": "vecmc",
+            "rule": "VectorT<S,D>, S in {int, unsigned, float, double}, D in {2,3,4}: every vector over the lattice {-2..2}^D ({0..4}^D unsigned) x every second vector x every scalar, every operation of the statement; floating point additionally over {0,-0,1,-1,0.5,1e-3,1e3,1/3,denorm_min,max,inf,NaN}^D (D=4: axis-aligned). Geometry: 6 shapes (tet, two tets, pyramid, prism, hex, dangling faces) x injective position assignments from a 3x3x2 lattice (exhaustive for the tet). distinct = distinct (operation, result bits) pairs",
+            "technique": "exhaustive enumeration of finite value lattices against component-wise reference formulas",
+            "assumptions": ["reductions on the floating-point alphabet are judged within the evaluation-order independent forward error bound; where a partial product is not finite in the scalar type the IEEE class of the result is left open",
+                            "l1_norm is the plain component sum (no absolute values): judged only on non-negative vectors, recorded as an observation otherwise",
+                            "VectorT::apply is not among the named operations (it transforms an uninitialised temporary; observation in DESIGN.md)",
+                            "halfface normals of the two sides are required to be opposite for planar, strictly convex faces"],
+            "bounds": {"quick": "D=4 lattice reduced to {-2,0,2}; float/double D=3 special-value pairs strided", "thorough": "full lattices, all D=3 special-value pairs"}},
     "C17": mc(jobs_c17, "every ordered pair (a<=b) of slots of each kind incl. deleted ones, in every state of: full alphabet depth 1 (small), reduced depth 1 (medium), seed only (large) x 4 modes; 7 partial incidence subsets on seed states",
               "states of depth 2 (small) / 1 (medium, large); partial incidence subsets after one more operation"),
 }
 
 NOT_YET = {}
 ENGINES = [
+    {"name": "vecmc", "path": "engines/vecmc", "serves_properties": ["C19", "C08"], "kind_free_text": "exhaustive value lattices (VectorT, geometry) and the 2^30 handle-index loop"},
+    {"name": "regmc", "path": "engines/regmc", "serves_properties": ["C14"], "kind_free_text": "explicit-state exploration of the property registry against a reference model, ASan lifetime oracle"},
     {"name": "ovmio", "path": "engines/ovmio", "serves_properties": ["C06", "C07", "C18"],
      "kind_free_text": "exhaustive encodings / mutations / stream faults against the real readers and writers, independent reference OVMB codec, fork isolation"},
     {"name": "meshmc", "path": "engines/meshmc", "serves_properties": ["C01", "C02", "C03", "C04", "C05", "C08", "C09", "C10", "C11", "C12", "C13", "C15", "C16", "C17"],
